@@ -15,24 +15,9 @@ package compiler
 //@ purepkg github.com/antlr/antlr4/runtime/Go/antlr
 
 // the machine.Type of a value / of the value a resource resolves to (vm.ResolveResources keeps the type)
-//@ def valType(v) = ite(typeis(v, "machine.AccountAddress"), 1, ite(typeis(v, "machine.Asset"), 2, ite(typeis(v, "*machine.MonetaryInt") || typeis(v, "machine.MonetaryInt"), 3, ite(typeis(v, "machine.String"), 4, ite(typeis(v, "machine.Monetary"), 5, ite(typeis(v, "machine.Portion"), 6, ite(typeis(v, "machine.Allotment"), 7, ite(typeis(v, "machine.Funding"), 9, 0))))))))
-//@ def isRes(r) = typeis(r, "program.Constant") || typeis(r, "program.Variable") || typeis(r, "program.VariableAccountMetadata") || typeis(r, "program.VariableAccountBalance") || typeis(r, "program.Monetary")
-//@ def resType(r) = ite(typeis(r, "program.Constant"), valType(as(r, "program.Constant").Inner), ite(typeis(r, "program.Variable"), as(r, "program.Variable").Typ, ite(typeis(r, "program.VariableAccountMetadata"), as(r, "program.VariableAccountMetadata").Typ, ite(typeis(r, "program.VariableAccountBalance"), 5, ite(typeis(r, "program.Monetary"), 5, valType(r))))))
+// (valType: internal/machine/contracts_verif.go; isRes, resType: internal/machine/vm/program/contracts_verif.go)
 
-// machine.Value and program.Resource have the same method set (GetType), so each type implements both
-//@ iface program.Resource.GetType
-//@   implementers
-//@   property C12 C08
-//@   pure
-//@   ensures ret == resType(recv)
-//@ iface machine.Value.GetType
-//@   implementers
-//@   property C12 C08
-//@   pure
-//@   ensures ret == resType(recv)
-// a constant wraps a machine value, never another resource descriptor
-// (nor a monetary without an amount: those only arise from balance() variables)
-//@ typeinv program.Constant: !isRes(self.Inner) && !(typeis(self.Inner, "machine.Monetary") && as(self.Inner, "machine.Monetary").Amount == nil) // C12 C08
+// (the contracts of GetType and the invariants of program.Constant / program.Monetary are in vm/program/contracts_verif.go)
 
 // ---- typing rules of the instructions (vm/machine.go tick)
 // A slot of tstack is ty + 16*(k+1): ty is the machine.Type, k the number the slot is statically known to hold
